@@ -50,6 +50,17 @@ func main() {
 		}
 		var steps []step
 		for _, cfg := range strings.Split(*config, ",") {
+			// "target<-source": the invocation uses the path `target`, whose content is first replaced by `source`
+			// (the same path string with another content, as an editor session would produce)
+			if tgt, src, ok := strings.Cut(cfg, "<-"); ok {
+				b, err := os.ReadFile(src)
+				if err != nil {
+					fmt.Fprintln(os.Stderr, err)
+					os.Exit(2)
+				}
+				_ = os.WriteFile(tgt, b, 0o644)
+				cfg = tgt
+			}
 			r := gleececmd.ExecuteWithArgs([]string{"generate", "spec-and-routes", "-c", cfg, "--no-banner"}, true)
 			st := step{Config: cfg}
 			if r.Error != nil {
